@@ -26,6 +26,9 @@ func (i *Duration) UnmarshalJSON(b []byte) error {
 	if l <= 2 {
 		return ErrInvalidDuration
 	}
+	if b[0] != '"' || b[l-1] != '"' {
+		return ErrInvalidDuration
+	}
 	var dur, err = time.ParseDuration(string(b[1 : l-1]))
 	if err != nil {
 		return err
